@@ -121,9 +121,34 @@ for _n, _c in [('time_ts_plus_dur', 't + d is the chrono result or an error when
                     claim=_c, vars=None)
 
 ALL_UNITS = ['value_arith', 'value_cmp', 'value_coll', 'macros', 'preresolved', 'interp', 'interp_vm_g0', 'interp_vm_g1', 'interp_vm_g2', 'interp_vm_g3',
-             'interp_vm_g4', 'interp_vm_g5', 'interp_vm_g6', 'interp_vm_g7', 'builtins', 'wiring']
+             'interp_vm_g4', 'interp_vm_g5', 'interp_vm_g6', 'interp_vm_g7', 'builtins', 'wiring', 'parser']
 
 PROPS = {
+    'C02': dict(
+        units=['parser', 'interp_vm_g1', 'interp_vm_g2', 'interp_vm_g3', 'interp_vm_g4'],
+        level_text='Each binary precedence level of the real recursive-descent parser (||, &&, the relations incl. in, + -, * / %) is proved, for every token sequence, to produce exactly the tree the CEL grammar defines for that level: one next-tighter operand followed by a LEFT fold over (operator operand)*, with exactly the operator set of the level; the VM arm contracts fix the operand order (lhs pushed first, popped second). A failed obligation is reported as the violation.',
+        not_covered=['?: / match (parse_expression, parse_turnary_expression), unary ! and - runs, postfix member/index/call chains, parentheses (parse_unary and below are known by contract only: sp_unary is uninterpreted)',
+                     'whitespace independence (tokenizer not under contract)'],
+        assumptions=['the Tokenizer trait is modelled by a ghost token sequence and a cursor (peek does not move, next advances by one)', 'the label counter does not overflow (2^32 labels)'],
+    ),
+    'C17': dict(
+        units=['parser'],
+        level_text='PARTIAL: for the five binary precedence levels the reported identifier set of a node is proved to be exactly the union of its operands\' sets (nothing dropped, nothing invented). Identifier primaries, calls, macros, f-strings, ternary and match (where the pinned tree drops names, F13) are NOT under contract, nor is filter_from_bindings.',
+        not_covered=['parse_primary (add_ident), parse_member (call handling, check_for_const), f-strings, ternary, match: not under contract', 'filter_from_bindings / IdentFilterIter'],
+        assumptions=['ProgramDetails::union_from is set union (HashSet, std)'],
+    ),
+    'C18': dict(
+        units=['parser'],
+        level_text='PARTIAL: for the five binary precedence levels the span of a node is proved to be exactly the hull of its first operand\'s span and its last operand\'s span (so children are contained in parents). Token spans, primaries, unary/postfix nodes, line/column tracking and syntax-error locations are NOT under contract.',
+        not_covered=['token spans and line/column tracking (string_scanner / string_tokenizer)', 'primaries, unary, member nodes, ternary, match', 'syntax error locations', 're-compiling the spanned text'],
+        assumptions=['SourceRange::surrounding is the hull (min of starts, max of ends; derive(Ord) on SourceLocation)'],
+    ),
+    'C09': dict(
+        units=['parser', 'interp_vm_g1', 'interp_vm_g2', 'interp_vm_g3', 'interp_vm_g4', 'interp_vm_g6', 'interp_vm_g7'],
+        level_text='PARTIAL: at every binary fold site of the compiler (compile! in the five binary levels) the value computed at compile time is proved to be op(lhs, rhs) for the same operator whose instruction is emitted otherwise, and the VM arm for that instruction is proved to push op(lhs, rhs) with the same operand order; the VM builds map literals with last-entry-wins and reads a map field before a method. The ternary fold, container folding in parse_primary, check_for_const (calls, now()) are NOT under contract.',
+        not_covered=['ternary condition folding (F9), list/map literal folding, member access folding, check_for_const incl. now()/timestamp() (F14) and unbound variables in folded macro bodies'],
+        assumptions=['operators are functions of their operands (op2 uninterpreted; purity by Rust typing)'],
+    ),
     'C01': dict(
         units=ALL_UNITS, safety_only=True,
         kani_quick=[],
@@ -152,11 +177,11 @@ PROPS = {
         assumptions=[],
     ),
     'C14': dict(
-        units=['interp_vm_g5'],
+        units=['interp_vm_g5', 'wiring'],
         kani_quick=CONV,
         kani_thorough=[],
         level_text='Numeric conversions: complete Kani proofs over all 64-bit inputs through the real #[dispatch] entry (thorough tier); f-string concatenation: Verus arm contract on the VM. String round trips and non-UTF-8 rejection are std behaviour behind parse/to_string/from_utf8 and are not decided.',
-        not_covered=['int(string(i)) == i and the other string round trips (std parse / Display are mutually inverse: assumed)', 'string(bytes) UTF-8 validation (std::String::from_utf8)',
+        not_covered=['int(string(i)) == i and the other string round trips (std parse / Display are mutually inverse: assumed)', 'what std::String::from_utf8 accepts (the wiring string(bytes) = from_utf8 or an error IS under contract)',
                      'type(T(x)) == T', 'the f-string lowering in parse_primary (parser contracts not reached); {{ }} handling in the tokenizer'],
         assumptions=[],
     ),
@@ -173,7 +198,7 @@ PROPS = {
         assumptions=['HashMap<u32,usize> semantics (vstd)', 'locations[&label] rewritten to *locations.get(&label).unwrap() (std defines Index that way)'],
     ),
     'C06': dict(
-        units=['value_coll', 'value_arith', 'interp_vm_g4', 'interp_vm_g5', 'interp_vm_g6'],
+        units=['value_coll', 'value_arith', 'interp_vm_g4', 'interp_vm_g5', 'interp_vm_g6', 'interp_vm_g7', 'wiring'],
         not_covered=['compile-time construction of list / map literals (parser contracts not reached); the run-time MkList / MkDict arms are under contract', 'size(): unit builtins',
                      'list membership is stated over PartialEq for CelValue, whose own structural impl is outside this unit'],
         assumptions=['HashMap<String,_> key model (axiom), Vec<CelValue>.len() <= isize::MAX (allocation limit)'],
